@@ -106,6 +106,7 @@ type colDef struct {
 type stmt struct {
 	kind   stmtKind
 	sql    string
+	lits   []Value // native shape sent with literals in the parameters' places (client-side interpolation)
 	table  tableRef
 	cols   []string
 	values []expr
@@ -562,6 +563,10 @@ func parseStatement(sql string, toks []token) (*stmt, *PGError) {
 		}
 		return st, nil
 	}
+	if name, lits := nativeShapeLiteral(toks); name != "" {
+		st.kind, st.native, st.lits = sNative, name, lits
+		return st, nil
+	}
 	p := &parser{toks: toks}
 	finish := func() (*stmt, *PGError) {
 		if p.peek().kind != tEOF {
@@ -867,6 +872,46 @@ func parseStatement(sql string, toks []token) (*stmt, *PGError) {
 
 var nativeShapes = map[string]string{}
 
+// nativeToks keeps the tokens of the shapes that take parameters: a client that interpolates the values itself
+// (simple protocol) sends the same statement with literals where the parameters stood.
+var nativeToks = map[string][]token{}
+
+// nativeShapeLiteral recognises such a statement and returns the values standing in the parameters' places.
+func nativeShapeLiteral(toks []token) (string, []Value) {
+	for name, sh := range nativeToks {
+		if len(sh) != len(toks) {
+			continue
+		}
+		var lits []Value
+		ok := true
+		for i := range sh {
+			a, b := sh[i], toks[i]
+			switch {
+			case a.kind == tParam && b.kind == tString:
+				for len(lits) < a.num {
+					lits = append(lits, nil)
+				}
+				lits[a.num-1] = b.text
+			case a.kind == tParam && b.kind == tNumber:
+				for len(lits) < a.num {
+					lits = append(lits, nil)
+				}
+				n, _ := strconv.ParseInt(b.text, 10, 64)
+				lits[a.num-1] = n
+			case a.kind != b.kind || normalize([]token{a}) != normalize([]token{b}):
+				ok = false
+			}
+			if !ok {
+				break
+			}
+		}
+		if ok && len(lits) > 0 {
+			return name, lits
+		}
+	}
+	return "", nil
+}
+
 func registerShape(name, sql string) {
 	toks, err := lex(sql)
 	if err != nil {
@@ -876,6 +921,12 @@ func registerShape(name, sql string) {
 		toks = toks[:len(toks)-1]
 	}
 	nativeShapes[normalize(toks)] = name
+	for _, t := range toks {
+		if t.kind == tParam {
+			nativeToks[name] = toks
+			break
+		}
+	}
 }
 
 func nativeShape(toks []token) string {
